@@ -79,6 +79,10 @@ void Counted::rollFiles()
 
    const filename::Builder  fname_builder( mFilenameDefinition);
 
+
+   // the new log file is empty
+   mNumberOfEntries = 0;
+
    for (int file_nbr = mMaxGenerations - 1; file_nbr > 0; --file_nbr)
    {
       std::string  dest_filename;
